@@ -214,4 +214,78 @@ theorem linkChain_prevOf (kind : Kind) (T : PTable) (item c k v : Nat) (pos : Nx
     | none => by_cases e : j = item <;> simp [PTable.prevOf, PTable.setCell, hh, upd, e]
     | some n => by_cases e : j = item <;> by_cases e2 : j = n <;> by_cases e3 : item = n <;> simp_all [PTable.prevOf, PTable.setCell, upd]
 
+/-- in a represented table the `next` of the last item is the own sentinel -/
+theorem Rel.last_next {pt : PTable} {t : Table} (hr : Rel pt t) (l : Nat) (he : pt.endPrev = some l) :
+    (pt.items l).next = .stl pt.self := by
+  have h1 := hr.endPrev_eq
+  rw [he] at h1
+  obtain ⟨l1, ho⟩ := List.getLast?_eq_some_iff.1 h1.symm
+  have hdll := hr.order
+  rw [ho] at hdll
+  have hs := ((GSeg_append Nxt.item some l1 [l] _ _ _).1 hdll).2
+  simp only [headP, GSeg] at hs
+  exact hs.2.2
+
+/-- … hence `a.swap(a)` (both halves of `swap` on one object) leaves a represented table as it is -/
+theorem Rel.swapSelf_eq {pt : PTable} {t : Table} (hr : Rel pt t) : pt.swapSelf = pt := by
+  have key : ∀ a : PTable, a.self = pt.self → a.endPrev = pt.endPrev → a.items = pt.items → a.begin = pt.begin →
+      PTable.adopt pt.self a = a := by
+    intro a hs he hi hb
+    unfold PTable.adopt
+    cases hep : a.endPrev with
+    | none =>
+      have hb' : pt.begin = .stl pt.self := by
+        have h1 := hr.endPrev_eq
+        rw [← he, hep] at h1
+        have ho : t.order = [] := by
+          cases hto : t.order with
+          | nil => rfl
+          | cons x r =>
+            rw [hto] at h1
+            have := List.getLast?_isSome.2 (List.cons_ne_nil x r)
+            rw [← h1] at this; simp at this
+        rw [hr.begin_eq, ho]; rfl
+      cases a
+      simp_all
+    | some l =>
+      have hn : (a.items l).next = .stl pt.self := by rw [hi]; exact hr.last_next l (by rw [← he]; exact hep)
+      have hu : upd a.items l { a.items l with next := .stl pt.self } = a.items := by
+        funext j
+        by_cases e : j = l
+        · subst e
+          simp only [upd_same]
+          rw [← hn]
+        · simp [upd, e]
+      cases a
+      simp_all
+  unfold PTable.swapSelf
+  rw [key pt rfl rfl rfl rfl, key pt rfl rfl rfl rfl]
+theorem setNext_setPrevOf_comm (t : PTable) (x : Nxt) (v : Option Nat) (p : Nat) (n : Nxt) :
+    (t.setPrevOf x v).setNext p n = (t.setNext p n).setPrevOf x v := by
+  cases x with
+  | stl o => rfl
+  | item j =>
+    simp only [PTable.setPrevOf, PTable.setPrev, PTable.setNext]
+    congr 1
+    funext y
+    by_cases e1 : j = p <;> by_cases e2 : y = j <;> by_cases e3 : y = p <;> simp_all [upd]
+
+theorem setPrevOf_begin (t : PTable) (x : Nxt) (v : Option Nat) (b : Nxt) :
+    ({ t.setPrevOf x v with begin := b } : PTable) = ({ t with begin := b } : PTable).setPrevOf x v := by
+  cases x <;> rfl
+
+/-- what `remove(iterator)` returns: the `next` of the released item is still the one it had -/
+theorem removeItem_snd (t : PTable) (item : Nat) (hc : (t.items item).cell ≠ .nextOf item) (hp : (t.items item).prev ≠ some item) :
+    (t.removeItem item).2 = (t.items item).next := by
+  unfold PTable.removeItem PTable.unlinkChain PTable.unlinkOrder
+  rcases hnc : (t.items item).nextCell with _ | n <;> rcases hpv : (t.items item).prev with _ | p
+  all_goals
+    simp only [hnc, hpv, writeCell_items_ne t _ _ item hc, setCell_prev, setCell_next, writeCell_prev, writeCell_next,
+      setPrev_next, setPrevOf_next]
+  all_goals
+    first
+    | rfl
+    | (have hpi : item ≠ p := fun e => hp (by rw [hpv, e])
+       simp only [setNext_next_ne _ _ _ _ hpi, setCell_next, writeCell_next, setPrev_next, setPrevOf_next])
+
 end Nstd.Hash.Ptr
